@@ -843,6 +843,16 @@ def _run_bee_low(ctx, lay, sigextra=()):
         ok = _bee_judge_image(ctx, seen, ctxs, base, image, enc, "BeeNxp.export_image", detail)
         if length % 16 == 0 and BeeNxp(hdrs, image, base).export_image() != enc:
             _emit_once(ctx, seen, "bee-export-image-not-repeatable", detail)
+        # the SAME object asked twice: the result depends only on (keys, absolute address, plaintext), not on what the
+        # object did before (the last partial block is padded with random bytes: compared over whole blocks only)
+        same = BeeNxp(hdrs, image, base)
+        n16 = length // 16 * 16
+        first = same.export_image()
+        second = same.export_image()
+        if first[:n16] != enc[:n16] or second[:n16] != enc[:n16] or same.base_address != base or bytes(same.input_image) != image:
+            _emit_once(ctx, seen, "bee-export-image-second-call-on-same-object-differs",
+                       dict(detail, first_equal=first[:n16] == enc[:n16], second_equal=second[:n16] == enc[:n16],
+                            base_address_after=hex(same.base_address)))
         if ok and len(seen) == n0:
             ctx.ok(["bee", "low", _len_sig(length, BEE_UNIT), al, lay["sel"], nfac,
                     _cov_sig([(s, e) for c in ctxs for s, e, _ in c.facs], base, length), *sigextra],
@@ -1310,6 +1320,10 @@ def _run_bee_cfg(ctx, case, cli):
             bee = BeeNxp.load_from_config(cfg, search_paths=[d])
             enc = bee.export_image()
             raws = bee.export_headers()
+            again = bee.export_image()   # same object, second call
+            n16 = length // 16 * 16      # the last partial block is padded with random bytes
+            if again[:n16] != enc[:n16]:
+                ctx.violation("bee-export-image-second-call-on-same-object-differs", dict(detail, path="load_from_config"))
     except SPSDKError as e:
         if "Invalid range of region" in str(e):
             ctx.violation("bee-unaligned-base-refused-block-straddles-fac-end" if base % BEE_UNIT else "bee-export-image-refuses-valid-layout",
